@@ -72,6 +72,13 @@ class KaniRun:
                 res[h] = "success"
             else:
                 res[h] = "unknown"
+        if re.search(r"run out of memory|Status: ERROR|CBMC failed", text):
+            # an out-of-memory / crashed CBMC run is reported by Kani as a failed harness: it is no verdict
+            nfail_checks = len(re.findall(r"Failed Checks:", text))
+            if nfail_checks < sum(1 for r in res.values() if r == "failed"):
+                for h in list(res):
+                    if res[h] == "failed":
+                        res[h] = "unknown"
         times = [float(x) for x in re.findall(r"Verification Time: ([0-9.]+)s", text)]
         errors = re.findall(r"^(error.*|.*CBMC failed.*|.*Status: ERROR.*|.*out of memory.*)$", text, re.M)[:5]
         summary = {"crate": self.crate, "wall_s": round(wall, 1), "solver_s": round(sum(times), 1), "timed_out": timed_out,
@@ -94,8 +101,12 @@ def playback(crate, harness, workdir):
     shutil.copytree(src, dst, ignore=shutil.ignore_patterns("target"))
     env = dict(os.environ, CARGO_NET_OFFLINE="true")
     tgt = os.path.join(CACHE, "kani-target-" + crate)
-    p = subprocess.run(["cargo", "kani", "--target-dir", tgt, "--exact", "--harness", "proofs::" + harness, "-Z", "concrete-playback",
-                        "--concrete-playback=inplace", "--output-format", "terse"], cwd=dst, env=env, capture_output=True, text=True, timeout=3600)
+    try:
+        p = subprocess.run("ulimit -v 25165824; exec cargo kani --target-dir %s --exact --harness proofs::%s -Z concrete-playback --concrete-playback=inplace --output-format terse" % (tgt, harness),
+                           shell=True, cwd=dst, env=env, capture_output=True, text=True, timeout=900)
+    except subprocess.TimeoutExpired:
+        subprocess.run("pkill -x cbmc", shell=True)
+        return None, dst, "extracting the counterexample (kani concrete playback) did not finish in 900 s"
     log = p.stdout[-3000:] + p.stderr[-2000:]
     q = subprocess.run(["cargo", "kani", "playback", "-Z", "concrete-playback"], cwd=dst, env=env, capture_output=True, text=True, timeout=3600)
     log += "\n--- playback ---\n" + q.stdout[-3000:] + q.stderr[-3000:]
